@@ -218,6 +218,13 @@ func runOnce(c ccase, tail []byte, attempt int) (res batch.Result, again bool) {
 	}
 	// (b) the offending peer can come back
 	s2, err := sessgen.Establish(vp, c.Cfg)
+	for try := 0; err != nil && try < 3 && strings.Contains(err.Error(), "NOTIFICATION 6/"); try++ {
+		// Cease: the new connection collided with the old FSM, which closes its connection before it publishes
+		// its new state. That is a legitimate transient answer (RFC 4271 section 6.8); a peer retries.
+		res.Count("reconnect_retries_after_cease", 1)
+		time.Sleep(100 * time.Millisecond)
+		s2, err = sessgen.Establish(vp, c.Cfg)
+	}
 	if err != nil {
 		res.Add("reconnect", feat("gen", c.Gen, "cut", c.Cut), "%s: a new connection of the same peer does not reach Established afterwards: %v", where, err)
 		return
